@@ -66,6 +66,19 @@ CHECKS = {
             "(the Python-ast -> expr translation), a Python conditional / and / or / chained comparison is reported; direct: batches "
             "of 2-8 columns, shared and per-column parameters/time, three shape options, every generated function.",
             "Gallina batch semantics with column-wise theorem + array-safety validation + batch-vs-column execution"),
+    "C02": ("Theorems (the typed C99 evaluation - integer constants are ints, int/int truncates, math functions are double, fmod has the "
+            "sign of the dividend - equals the real meaning on the fragment without int/int division and fmod, for every carrier into "
+            "which int embeds as a ring; the reals are one; computed refutations for (1/4)*x, (2*3)/4, fmod) + correspondence: every "
+            "right-hand side of the generated C, parsed with typed constants, evaluated by the extracted typed evaluator, must equal "
+            "what the gcc/clang-compiled unit computes; direct: compile in default mode, init functions, rhs/monitor_values/schemes vs "
+            "reference meaning and numpy module; mismatches the typed evaluator predicts outside the safe fragment are the known findings.",
+            "Gallina typed C-expression semantics with soundness theorem + compile-and-run differential execution"),
+    "C03": ("Theorems (a validated function returns, under the jax convention _values_i + returned list, an array of the declared "
+            "length equal to the numpy result; an unassigned declared slot is an error) + correspondence: jax skeletons pass the same "
+            "validators against the same tables, returned list = _values_0.._values_{n-1}; direct: import, jitted and un-jitted runs of "
+            "every function, lengths and values vs reference and numpy module, models without parameters, nested 2-5-operand And/Or "
+            "over all sign patterns.",
+            "Gallina model of the functional jax convention + verified validators + jit/no-jit differential execution"),
 }
 
 def main():
